@@ -379,6 +379,9 @@ def real_dataset_checks(tier):
             'dtype': lambda d: put(d, gv.astype('float32')),
             'attribute added': lambda d: put(d, gv.assign_attrs(comment='x')),
             'attribute changed': lambda d: put(d, gv.assign_attrs(units='degrees')),
+            # attributes are attributes, whatever they are called
+            'underscore attribute added': lambda d: put(d, gv.assign_attrs(_note='x')),
+            'fill value attribute added': lambda d: put(d, gv.assign_attrs(_FillValue=numpy.float64(-999.0))),
             'attribute removed': lambda d: put(d, gv.assign_attrs({k: v for k, v in list(gv.attrs.items())[1:]}).pipe(lambda a: _drop_first_attr(a, gv))),
         }
         for name, fn in gedits.items():
@@ -405,6 +408,30 @@ def real_dataset_checks(tier):
             notes.append(f'{conv}: could not build a Fortran-ordered twin')
         elif key_of(alt) != k0:
             V(f'real:{conv}:memory-layout', 'identical geometry values give the same key whatever the memory layout of the arrays', g)
+    # connectivity variables: index tables and their fill / start_index attributes are geometry too
+    for supply, extra in ((('edge_node', 'face_edge'), dict()), (('face_edge',), dict(edge_dimension_attr=False, with_edges=False)),
+                          (('edge_node', 'edge_face', 'face_face'), dict())):
+        try:
+            ds = builders.ugrid('tqp', supply=supply, fill='attr', start_index=1, **extra)
+            names = list(ds.copy().ems.get_all_geometry_names())
+        except Exception as e:
+            notes.append(f'ugrid {supply}: not applicable ({type(e).__name__})')
+            continue
+        k0 = key_of(ds)
+        for g in ('face_node',) + tuple(supply):
+            if g not in names:
+                continue          # the library does not count it as geometry for this mesh: nothing to claim
+            gv = ds[g]
+            vals = gv.values.copy()
+            vals.reshape(-1)[0] = vals.reshape(-1)[0] + 1 if int(vals.reshape(-1)[0]) + 1 != int(gv.attrs['_FillValue']) else vals.reshape(-1)[0] + 2
+            for name, da in (('one index', gv.copy(data=vals)), ('fill value attribute', gv.assign_attrs(_FillValue=numpy.int32(-1))),
+                             ('start_index attribute', gv.assign_attrs(start_index=0)), ('dtype', gv.astype('int64'))):
+                if key_of(ds.assign({g: da})) == k0:
+                    V(f'real:ugrid:{"+".join(supply)}:{g}:{name}', 'a single edit of a geometry variable changes the cache key', f'{g}: {name}')
+        # whether a connectivity variable the mesh names counts as geometry must not depend on unrelated attributes
+        for g in supply:
+            if g not in names:
+                V(f'real:ugrid:{"+".join(supply)}:{g}', 'every connectivity variable named by the mesh is part of the geometry', f'{g} missing from {names}')
     # every value of a geometry variable takes part, however long the variable is
     for conv, g in (('cf1d-wide', 'lon'), ('cf1d-wide', 'lon_bnds'), ('cf2d-wide', 'lat'), ('cf2d-wide', 'lon')):
         ds = _dataset(conv)
